@@ -325,6 +325,22 @@ fn c07_scenarios(thorough: bool) -> Vec<Scenario> {
             fail_call: 0,
             cancel_early: true,
         }));
+        // (The fourth call of a block after a five-sample source is the one
+        // right after its input has ended and drained; likewise the third
+        // after a two-sample source.)
+        for fail_block in 1..3 {
+            for (len, fail_call) in [(5usize, 4usize), (2, 3), (2, 2)] {
+                v.push(Scenario::Run(RunParams {
+                    kind: "fail".into(),
+                    runner: runner.into(),
+                    infinite: false,
+                    src_len: len,
+                    fail_block,
+                    fail_call,
+                    cancel_early: false,
+                }));
+            }
+        }
         for fail_block in 0..3 {
             for fail_call in 1..=3 {
                 for (infinite, len) in [(true, 0usize), (false, 5)] {
